@@ -386,13 +386,19 @@ def gen_matchdict(draw):
     keys = draw(st.lists(st.sampled_from(['x1', 'x2', 'y1', 'zz', 'x3']), min_size=1, max_size=4, unique=True))
     return {'keys': keys, 'outer': draw(st.sampled_from([None, 'outer-k'])),
             'first_key': draw(st.sampled_from(['regex', 'regex', 'abind'])),
-            'optional': draw(st.booleans())}
+            'optional': draw(st.booleans()),
+            # entries of the pattern whose key is a plain constant (they bind nothing), listed before or after the binder
+            # entry; the target lists its items in an order of its own
+            'const': draw(st.lists(st.sampled_from(keys), max_size=2, unique=True)),
+            'const_pos': 'before',       # (keys are tried in the order the pattern lists them; a constant after the binder would never match)
+            'target_order': draw(st.permutations(keys))}
 
 
 def check_matchdict(recipe, ctx):
     from glom import Optional
     keys = recipe['keys']
-    target = dict((k, i) for i, k in enumerate(keys))
+    target = dict((k, keys.index(k)) for k in recipe.get('target_order', keys))
+    const = recipe.get('const', [])
     reader = Auto({'saw': Coalesce(S.k, default=UNB), 'val': T})
     if recipe['first_key'] == 'regex':
         binder = Regex('(?P<k>x.*)')
@@ -402,7 +408,15 @@ def check_matchdict(recipe, ctx):
         binder = And(M == keys[0], A.k)           # binder nested in a compound key: invisible to the value
         binds = lambda key: False
         bound = lambda key: None
-    pattern = {binder: reader, str: Auto({'saw': Coalesce(S.k, default=UNB), 'val': T})}
+    pattern = {}
+    if recipe.get('const_pos') == 'before':
+        for c in const:
+            pattern[c] = Auto({'saw': Coalesce(S.k, default=UNB), 'val': T})
+    pattern[binder] = reader
+    pattern[str] = Auto({'saw': Coalesce(S.k, default=UNB), 'val': T})
+    if recipe.get('const_pos') == 'after':
+        for c in const:
+            pattern[c] = Auto({'saw': Coalesce(S.k, default=UNB), 'val': T})
     if recipe['optional']:
         pattern[Optional('opt', default=Auto(Coalesce(S.k, default=UNB)))] = object
     spec = Match(pattern)
@@ -411,11 +425,14 @@ def check_matchdict(recipe, ctx):
     outer = recipe['outer'] or UNB
     exp = {}
     for key in keys:
-        exp[key] = {'saw': bound(key) if binds(key) else outer, 'val': target[key]}
+        # (an item whose key equals a constant key of the pattern is matched by that entry: constants go first)
+        exp[key] = {'saw': bound(key) if binds(key) and key not in const else outer, 'val': target[key]}
     if recipe['optional']:
         exp['opt'] = outer
     ctx.nontrivial(len(keys) >= 2)
     ctx.label('entries-%d' % len(keys), 'outer' if recipe['outer'] else 'no-outer')
+    if const and len(keys) > len(const):
+        ctx.label('constant-key-beside-binder')
     where = 'glom(%r, %r)' % (target, spec)
     try:
         got = glom.glom(target, spec)
@@ -435,13 +452,39 @@ def gen_tree(draw, d):
 
 
 def gen_ref(draw):
-    return {'tree': gen_tree(draw, 3), 'inner': draw(st.sampled_from(['none', 'dict-sibling', 'coalesce-branch', 'list-elem-sibling', 'nested-shadow'])),
+    return {'tree': gen_tree(draw, 3), 'inner': draw(st.sampled_from(['none', 'dict-sibling', 'coalesce-branch', 'list-elem-sibling', 'nested-shadow',
+                                                                      'shared-use', 'shared-use-two-calls'])),
             'twice': draw(st.booleans())}
 
 
 def check_ref(recipe, ctx):
     tree = recipe['tree']
     inner = recipe['inner']
+    if inner.startswith('shared-use'):
+        # ONE referring Ref object placed under two different definitions of its name: each use resolves to the
+        # definition that encloses it
+        r = Ref('node')
+        def_a = Ref('node', {'A': ('kids', [r]), 'v': 'v'})
+        def_b = Ref('node', {'B': ('kids', [r]), 'v': 'v'})
+
+        def exp_of(tag, t):
+            return {tag: [exp_of(tag, c) for c in t['kids']], 'v': t['v']}
+        ctx.nontrivial(len(tree['kids']) >= 1)
+        ctx.label('inner-' + inner)
+        try:
+            if inner == 'shared-use':
+                got = glom.glom(tree, {'a': def_a, 'b': def_b})
+                exp = {'a': exp_of('A', tree), 'b': exp_of('B', tree)}
+            else:
+                got = [glom.glom(tree, def_a), glom.glom(tree, def_b), glom.glom(tree, def_a)]
+                exp = [exp_of('A', tree), exp_of('B', tree), exp_of('A', tree)]
+        except Exception as e:
+            raise Mismatch('unexpected-exception', 'shared Ref: %s: %s' % (type(e).__name__, str(e).splitlines()[-1][:200]))
+        if got != exp:
+            raise Mismatch('ref-resolution', 'one Ref(\'node\') object used under two definitions (%s) on %r: expected %r, got %r'
+                           % (inner, tree, exp, got))
+        ctx.outcome([inner, len(tree['kids'])])
+        return
     body = {'v': 'v', 'kids': ('kids', [Ref('node')])}
     if inner == 'dict-sibling':
         body['other'] = Ref('node', Val('inner-definition'))         # a sibling definition must not capture 'kids'
